@@ -275,4 +275,55 @@ def r5(F, R):
     R.floor(2)
 
 
-RULES = [("R5", r5, ["all", "junit"]), ("R1", r1, None), ("R2", r2, None), ("R3", r3, None), ("R4", r4, None)]
+def _container_field(F, b, op):
+    """{(owner, field)}: the innermost json:: field the operand (a reference to a list) denotes."""
+    l = op_local(op)
+    if l is None:
+        return set()
+    body2, cp = A.canon_place_deep(F, b, {"l": l, "p": ["*"]})
+    fs = [(o, n) for o, n in place_fields(cp) if o.startswith("writer::json::")]
+    return {fs[-1]} if fs else set()
+
+
+def r6(F, R):
+    """Cucumber JSON: every step / hook lands in the entry of its own feature and scenario — before a new `Feature` / `Element` entry
+    is pushed, the existing entries of that very list are ALL searched (position / find over `iter()`); taking just the last entry is
+    wrong as soon as a parser error (pushed into the same list, forwarded at once) arrives mid-feature."""
+    JS = "writer::json::"
+    pushes = []
+    for b in F.crate_bodies():
+        if (F.root_fn(b).impl or {}).get("self_adt") != JS + "Json":
+            continue
+        for s, t in b.calls(lambda t: callee_is(t, r"Vec::<.*>::push$")):
+            l = op_local(t["args"][1]) if len(t["args"]) > 1 else None
+            ety = b.locals[l] if l is not None else ""
+            if ety in (JS + "Feature", JS + "Element"):
+                fs = _container_field(F, b, t["args"][0])
+                pushes.append((b, s, t, ety, fs))
+    if not pushes:
+        if any(b.name.startswith(JS) for b in F.crate_bodies()):
+            raise Unverifiable("no push of a json::Feature / json::Element entry found")
+        return
+    n = 0
+    for b, s, t, ety, fs in pushes:
+        if "new" in b.name.rsplit("::", 1)[-1] or not fs:
+            continue   # constructors fill a fresh list
+        if any((g.cond_def() or [None])[0] == "discr" and g.variants() == {"Err"} for g in A.guards_of(b, s)):
+            continue   # a parser error is always an entry of its own
+        root = F.root_fn(b)
+        found = False
+        for nb in F.nested(root):
+            for s2, t2 in nb.calls(lambda t2: callee_is(t2, r"Iterator::(position|rposition|find|find_map|any)$")):
+                ch = A.receiver_chain(nb, t2["args"][0])
+                its = [c for _, c in ch if callee_is(c, r"::iter(_mut)?$|IntoIterator::into_iter$")]
+                rf = _container_field(F, nb, ch[-1][1]["args"][0]) if its and ch[-1][1]["args"] else set()
+                if rf & fs:
+                    found = True
+        n += 1
+        kind = ety.rsplit("::", 1)[-1]
+        R.check(found, f"json/entry-searched-among-all/{kind}", s, f"existing {kind} entries are searched before a new one is pushed",
+                f"a new json::{kind} entry is pushed without searching all existing entries of {sorted(n_ for _, n_ in fs)}: events of one {kind.lower()} can be split over duplicate entries")
+    R.floor(2)
+
+
+RULES = [("R6", r6, ["all", "json"]), ("R5", r5, ["all", "junit"]), ("R1", r1, None), ("R2", r2, None), ("R3", r3, None), ("R4", r4, None)]
